@@ -1,6 +1,7 @@
 package props
 
 import (
+	"fmt"
 	"go/ast"
 	"go/token"
 	"go/types"
@@ -207,6 +208,376 @@ func extractorStores(g *core.Graph, field string) []storeV {
 	return out
 }
 
+func posText(k int64) string {
+	if k < 0 {
+		return fmt.Sprintf("len%d", k)
+	}
+	return fmt.Sprintf("%d", k)
+}
+
+// chainParam returns the []Reference parameter of fn.
+func chainParam(fn *core.Func) types.Object {
+	info := fn.Info()
+	if fn.Decl.Type.Params == nil {
+		return nil
+	}
+	var out types.Object
+	for _, f := range fn.Decl.Type.Params.List {
+		for _, n := range f.Names {
+			obj := info.ObjectOf(n)
+			if sl, ok := obj.Type().Underlying().(*types.Slice); ok && core.IsNamed(sl.Elem(), "pdf", "Reference") {
+				if out != nil {
+					return nil
+				}
+				out = obj
+			}
+		}
+	}
+	return out
+}
+
+// chainIdx says which element of the chain an expression denotes: a constant
+// position, or the element of a loop (its head) that visits every position.
+type chainIdx struct {
+	kind string // "const", "loop", ""
+	k    int64
+	loop *core.V
+	why  string
+}
+
+// idxTerm is an index into the chain in symbolic form.
+type idxTerm struct {
+	isConst bool
+	k       int64   // from the start; negative: from the end
+	loop    *core.V // the element the loop is at
+	partial bool    // the loop visits only part of the positions
+}
+
+// chainIndexOf resolves the reference component of a cache key (the key
+// expression as used at vertex at) to a position in the chain refs.  It
+// follows struct literals, single definitions of locals, assignments to the
+// key's ref field, range values, and slices of keys that were filled from
+// the chain position by position.
+func chainIndexOf(fn *core.Func, g *core.Graph, refs types.Object, at *core.V, key ast.Expr, depth int) chainIdx {
+	t, why := chainRefOfKey(fn, g, refs, at, key, nil, depth)
+	if t == nil {
+		return chainIdx{why: why}
+	}
+	if t.isConst {
+		return chainIdx{kind: "const", k: t.k}
+	}
+	if t.partial {
+		return chainIdx{kind: "part", loop: t.loop}
+	}
+	return chainIdx{kind: "loop", loop: t.loop}
+}
+
+// loopOverLen reports whether e is the chain or a slice made with its length.
+func loopOverLen(fn *core.Func, g *core.Graph, refs types.Object, e ast.Expr) (a, b, of bool, c bool) {
+	info := fn.Info()
+	o := core.ObjOf(info, e)
+	if o == nil {
+		return
+	}
+	if o == refs {
+		of = true
+		return
+	}
+	defs := defVertices(g, o)
+	if len(defs) != 1 {
+		return
+	}
+	rhs, _ := rhsFor(info, defs[0], o)
+	if call, ok := ast.Unparen(rhs).(*ast.CallExpr); ok && rhs != nil && core.CalleeKey(info, call) == "builtin.make" && len(call.Args) == 2 {
+		if lc, ok := ast.Unparen(call.Args[1]).(*ast.CallExpr); ok && core.CalleeKey(info, lc) == "builtin.len" && len(lc.Args) == 1 && core.ObjOf(info, lc.Args[0]) == refs {
+			of = true
+		}
+	}
+	return
+}
+
+// fullLoopOver: if obj is the index or the element variable of a loop that
+// visits every position of a slice as long as the chain (the chain itself, or
+// a slice made with its length), the loop's head; elem says whether obj is
+// the element (and of which slice).
+func fullLoopOver(fn *core.Func, g *core.Graph, refs types.Object, obj types.Object) (head *core.V, isElem bool, of types.Object) {
+	head, isElem, of, partial := loopOver(fn, g, refs, obj)
+	if partial {
+		return nil, false, nil
+	}
+	return head, isElem, of
+}
+
+// loopOver is fullLoopOver that also recognises loops over a proper part of
+// the positions (range x[1:], i := 1; ...), flagged partial.
+func loopOver(fn *core.Func, g *core.Graph, refs types.Object, obj types.Object) (head *core.V, isElem bool, of types.Object, partial bool) {
+	info := fn.Info()
+	part := false
+	sameLen := func(e ast.Expr) types.Object {
+		part = false
+		if se, ok := ast.Unparen(e).(*ast.SliceExpr); ok {
+			// x[a:b]: part of x unless a is 0/absent and b is absent
+			if se.High != nil {
+				part = true
+			}
+			if se.Low != nil {
+				if k, isK := core.IntConst(info, se.Low); !isK || k != 0 {
+					part = true
+				}
+			}
+			e = se.X
+		}
+		o := core.ObjOf(info, e)
+		if o == nil {
+			return nil
+		}
+		if o == refs {
+			return o
+		}
+		// made with the chain's length: x := make([]T, len(refs))
+		defs := defVertices(g, o)
+		if len(defs) != 1 {
+			return nil
+		}
+		rhs, _ := rhsFor(info, defs[0], o)
+		if rhs == nil {
+			return nil
+		}
+		if call, ok := ast.Unparen(rhs).(*ast.CallExpr); ok && core.CalleeKey(info, call) == "builtin.make" && len(call.Args) == 2 {
+			if lc, ok := ast.Unparen(call.Args[1]).(*ast.CallExpr); ok && core.CalleeKey(info, lc) == "builtin.len" && len(lc.Args) == 1 && core.ObjOf(info, lc.Args[0]) == refs {
+				return o
+			}
+		}
+		return nil
+	}
+	for _, h := range loopHeads(g) {
+		if r := h.Cond.Range; r != nil {
+			x := sameLen(r.X)
+			if x == nil {
+				continue
+			}
+			isPart := part
+			if r.Key != nil && core.ObjOf(info, r.Key) == obj && obj != nil {
+				return h, false, x, isPart
+			}
+			if r.Value != nil && core.ObjOf(info, r.Value) == obj && obj != nil {
+				return h, true, x, isPart
+			}
+			continue
+		}
+		fs, ok := h.AST.(*ast.ForStmt)
+		if !ok {
+			if h.Block != nil && h.Block.Stmt != nil {
+				fs, ok = h.Block.Stmt.(*ast.ForStmt)
+			}
+		}
+		if !ok || fs == nil || fs.Init == nil || fs.Cond == nil || fs.Post == nil {
+			continue
+		}
+		init, ok1 := fs.Init.(*ast.AssignStmt)
+		cond, ok2 := ast.Unparen(fs.Cond).(*ast.BinaryExpr)
+		post, ok3 := fs.Post.(*ast.IncDecStmt)
+		if !ok1 || !ok2 || !ok3 || len(init.Lhs) != 1 || len(init.Rhs) != 1 || core.ObjOf(info, init.Lhs[0]) != obj || obj == nil {
+			continue
+		}
+		k0, isK := core.IntConst(info, init.Rhs[0])
+		if !isK || k0 < 0 {
+			continue
+		}
+		if cond.Op != token.LSS || core.ObjOf(info, cond.X) != obj || post.Tok != token.INC || core.ObjOf(info, post.X) != obj {
+			continue
+		}
+		lc, isCall := ast.Unparen(cond.Y).(*ast.CallExpr)
+		if !isCall || core.CalleeKey(info, lc) != "builtin.len" || len(lc.Args) != 1 {
+			continue
+		}
+		x := sameLen(lc.Args[0])
+		if x == nil || len(defVertices(g, obj)) > 2 {
+			continue
+		}
+		return h, false, x, part || k0 != 0
+	}
+	return nil, false, nil, false
+}
+
+// chainRefOfKey: the position in the chain of the reference a key carries.
+// bind maps an index variable to the term it stands for (when the key was
+// read from a slice of keys at that position).
+func chainRefOfKey(fn *core.Func, g *core.Graph, refs types.Object, at *core.V, key ast.Expr, bind map[types.Object]*idxTerm, depth int) (*idxTerm, string) {
+	info := fn.Info()
+	if depth <= 0 {
+		return nil, "too deep"
+	}
+	key = ast.Unparen(key)
+	if u, ok := key.(*ast.UnaryExpr); ok && u.Op == token.AND {
+		key = ast.Unparen(u.X)
+	}
+	switch x := key.(type) {
+	case *ast.CompositeLit:
+		if !core.IsNamed(info.TypeOf(x), "pdf", "extractorKey") {
+			return nil, "a literal of another type"
+		}
+		r := literalField(info, x, "ref")
+		if r == nil {
+			return nil, "the key literal has no reference"
+		}
+		return chainRefOfRef(fn, g, refs, at, r, bind, depth-1)
+	case *ast.Ident:
+		obj := info.ObjectOf(x)
+		if obj == nil {
+			return nil, "unresolved identifier"
+		}
+		// the element of a loop over a slice of keys
+		if h, isElem, of, part := loopOver(fn, g, refs, obj); h != nil && isElem && of != refs {
+			return chainKeyElem(fn, g, refs, of, &idxTerm{loop: h, partial: part}, depth-1)
+		}
+		// key.ref = E on every path to the use (the last such assignment)
+		var best *core.V
+		var bestExpr ast.Expr
+		for _, v := range g.Vs {
+			as, ok := v.AST.(*ast.AssignStmt)
+			if !ok || len(as.Lhs) != len(as.Rhs) || as.Tok != token.ASSIGN {
+				continue
+			}
+			for i, l := range as.Lhs {
+				sel, ok := ast.Unparen(l).(*ast.SelectorExpr)
+				if !ok || sel.Sel.Name != "ref" || core.ObjOf(info, sel.X) != obj {
+					continue
+				}
+				if v != at && g.Dominates(v, at) && (best == nil || g.Dominates(best, v)) {
+					best, bestExpr = v, as.Rhs[i]
+				}
+			}
+		}
+		if best != nil {
+			// no other assignment of the field between the chosen one and the use
+			for _, v := range g.Vs {
+				as, ok := v.AST.(*ast.AssignStmt)
+				if !ok || v == best {
+					continue
+				}
+				for _, l := range as.Lhs {
+					if sel, ok := ast.Unparen(l).(*ast.SelectorExpr); ok && sel.Sel.Name == "ref" && core.ObjOf(info, sel.X) == obj {
+						if g.ReachFrom(best, false, nil)[v] && g.ReachFrom(v, false, core.AvoidVs(best))[at] {
+							return nil, "the key's reference is assigned on some paths only"
+						}
+					}
+				}
+			}
+			return chainRefOfRef(fn, g, refs, best, bestExpr, bind, depth-1)
+		}
+		cs := valueCases(g, at, x, 1)
+		if len(cs) != 1 || cs[0].V == nil || cs[0].V == at || cs[0].Expr == ast.Expr(x) {
+			return nil, "the key " + x.Name + " has no single definition"
+		}
+		return chainRefOfKey(fn, g, refs, cs[0].V, cs[0].Expr, bind, depth-1)
+	case *ast.IndexExpr:
+		// keys[I]
+		of := core.ObjOf(info, x.X)
+		if of == nil {
+			return nil, "indexed value is not a local"
+		}
+		it, why := chainIndexTerm(fn, g, refs, at, x.Index, bind, depth-1)
+		if it == nil {
+			return nil, why
+		}
+		return chainKeyElem(fn, g, refs, of, it, depth-1)
+	}
+	return nil, "key of a form that is not followed"
+}
+
+// chainKeyElem: the chain position of the reference in keys[pos], for a
+// slice of keys filled position by position in one loop.
+func chainKeyElem(fn *core.Func, g *core.Graph, refs types.Object, keys types.Object, pos *idxTerm, depth int) (*idxTerm, string) {
+	info := fn.Info()
+	var storeV *core.V
+	var storeIdx, storeVal ast.Expr
+	for _, v := range g.Vs {
+		as, ok := v.AST.(*ast.AssignStmt)
+		if !ok || len(as.Lhs) != len(as.Rhs) {
+			continue
+		}
+		for i, l := range as.Lhs {
+			if ix, ok := ast.Unparen(l).(*ast.IndexExpr); ok && core.ObjOf(info, ix.X) == keys {
+				if storeV != nil {
+					return nil, "the slice of keys is filled in more than one place"
+				}
+				storeV, storeIdx, storeVal = v, ix.Index, as.Rhs[i]
+			}
+		}
+	}
+	if storeV == nil {
+		return nil, "no element store into the slice of keys"
+	}
+	j := core.ObjOf(info, storeIdx)
+	h, isElem, _ := fullLoopOver(fn, g, refs, j)
+	if j == nil || h == nil || isElem {
+		return nil, "the slice of keys is not filled by a loop over every position"
+	}
+	body := succ(h, core.EdgeTrue)
+	if body == nil || g.ReachFrom(body, true, core.AvoidVs(storeV))[h] || g.ReachFrom(body, true, core.AvoidVs(h))[g.Exit] {
+		return nil, "the loop that fills the slice of keys can skip a position"
+	}
+	return chainRefOfKey(fn, g, refs, storeV, storeVal, map[types.Object]*idxTerm{j: pos}, depth)
+}
+
+// chainRefOfRef: the position in the chain of a Reference-valued expression.
+func chainRefOfRef(fn *core.Func, g *core.Graph, refs types.Object, at *core.V, e ast.Expr, bind map[types.Object]*idxTerm, depth int) (*idxTerm, string) {
+	info := fn.Info()
+	if depth <= 0 {
+		return nil, "too deep"
+	}
+	switch x := ast.Unparen(e).(type) {
+	case *ast.IndexExpr:
+		if core.ObjOf(info, x.X) != refs {
+			return nil, "a reference that is not taken from the chain"
+		}
+		return chainIndexTerm(fn, g, refs, at, x.Index, bind, depth-1)
+	case *ast.Ident:
+		obj := info.ObjectOf(x)
+		if h, isElem, of, part := loopOver(fn, g, refs, obj); h != nil && isElem && of == refs {
+			return &idxTerm{loop: h, partial: part}, ""
+		}
+		cs := valueCases(g, at, x, 1)
+		if len(cs) != 1 || cs[0].V == nil || cs[0].V == at || cs[0].Expr == ast.Expr(x) {
+			return nil, "the reference " + x.Name + " has no single definition"
+		}
+		return chainRefOfRef(fn, g, refs, cs[0].V, cs[0].Expr, bind, depth-1)
+	}
+	return nil, "a reference of a form that is not followed"
+}
+
+// chainIndexTerm evaluates an index expression: a constant, a bound
+// variable, or the index variable of a loop over every position.
+func chainIndexTerm(fn *core.Func, g *core.Graph, refs types.Object, at *core.V, e ast.Expr, bind map[types.Object]*idxTerm, depth int) (*idxTerm, string) {
+	info := fn.Info()
+	if k, ok := core.IntConst(info, e); ok {
+		return &idxTerm{isConst: true, k: k}, ""
+	}
+	if be, isBin := ast.Unparen(e).(*ast.BinaryExpr); isBin && be.Op == token.SUB {
+		// len(x)-k: the k-th position from the end
+		if lc, isCall := ast.Unparen(be.X).(*ast.CallExpr); isCall && core.CalleeKey(info, lc) == "builtin.len" && len(lc.Args) == 1 {
+			if k, isK := core.IntConst(info, be.Y); isK && k >= 1 {
+				if _, _, of, _ := loopOverLen(fn, g, refs, lc.Args[0]); of {
+					return &idxTerm{isConst: true, k: -k}, ""
+				}
+			}
+		}
+	}
+	id, ok := ast.Unparen(e).(*ast.Ident)
+	if !ok {
+		return nil, "a computed position " + core.ExprStr(e)
+	}
+	obj := info.ObjectOf(id)
+	if t := bind[obj]; t != nil {
+		return t, ""
+	}
+	if h, isElem, _, part := loopOver(fn, g, refs, obj); h != nil && !isElem {
+		return &idxTerm{loop: h, partial: part}, ""
+	}
+	return nil, "the position " + id.Name + " is not a constant or the index of a loop over the whole chain"
+}
+
 func okEdgeGuard(g *core.Graph, site *core.V, okObj types.Object, want bool) bool {
 	return g.GuardedBy(site, func(a core.Atom) bool {
 		id, isID := ast.Unparen(a.Expr).(*ast.Ident)
@@ -288,10 +659,45 @@ func rulePublication(c *core.Ctx) {
 			}
 		}
 		o.Require(hit, "the hit edge does not return the cached value")
-		o.Shape(strings.ReplaceAll(core.ExprStr(looks[0].Key), " ", "") == "extractorKey{…}" || true, "")
-		src := c.Prog.Src(fn.Decl.Body)
-		o.Shape(strings.Contains(src, "x.cache[extractorKey{ref:refs[0],tp:tp}]"), "the hit test must look at the first reference of the chain")
-		o.Shape(strings.Contains(src, "for_,ref:=rangerefs{x.cache[extractorKey{ref:ref,tp:tp}]=res}"), "the value must be published under every reference of the chain")
+		// which reference of the chain a key stands for: the first (hit test) or
+		// the element of a loop over the whole chain (publication)
+		refs := chainParam(fn)
+		if refs == nil {
+			o.Unrec("the chain of references is not a slice parameter")
+			return
+		}
+		lk := chainIndexOf(fn, g, refs, looks[0].V, looks[0].Key, 6)
+		switch {
+		case lk.kind == "const" && lk.k == 0:
+		case lk.kind == "const":
+			o.FailAt(fn.Site(looks[0].V.AST, ""), "the hit test looks at reference %s of the chain: the first reference is the one every decoder of this object starts from, a later one need not be shared", posText(lk.k))
+		case lk.kind == "loop" || lk.kind == "part":
+			o.FailAt(fn.Site(looks[0].V.AST, ""), "the hit test is made inside a loop over the chain")
+		default:
+			o.Unrec("the hit test must look at the first reference of the chain (the reference in the key %s is not followed: %s)", core.ExprStr(looks[0].Key), lk.why)
+		}
+		st := chainIndexOf(fn, g, refs, stores[0].V, stores[0].Index, 6)
+		switch {
+		case st.kind == "loop":
+			head := st.loop
+			body := succ(head, core.EdgeTrue)
+			if body == nil || !g.ReachFrom(body, true, core.AvoidVs(head))[stores[0].V] {
+				o.Unrec("the publication is keyed by the element of a loop it is not part of")
+				break
+			}
+			if g.ReachFrom(body, true, core.AvoidVs(stores[0].V))[head] {
+				o.FailAt(fn.Site(stores[0].Stmt, ""), "an iteration of the loop over the chain can skip the publication: some reference of the chain stays unpublished")
+			}
+			if g.ReachFrom(body, true, core.AvoidVs(head))[g.Exit] {
+				o.FailAt(fn.Site(stores[0].Stmt, ""), "the loop over the chain can be left before its end: the value is not published under every reference of the chain")
+			}
+		case st.kind == "part":
+			o.FailAt(fn.Site(stores[0].Stmt, ""), "the value is published by a loop over a part of the chain only: it must be published under every reference (a later Decode may start from any of them)")
+		case st.kind == "const":
+			o.FailAt(fn.Site(stores[0].Stmt, ""), "the value is published under reference %s of the chain only, it must be published under every reference (a later Decode may start from any of them)", posText(st.k))
+		default:
+			o.Unrec("the value must be published under every reference of the chain (the reference in the key %s is not followed: %s)", core.ExprStr(stores[0].Index), st.why)
+		}
 	})
 	c.Check(rule, "pdf.Decode/adopt", "Decode returns the value adopted from the cache (not its own result) whenever the object was reached through a reference, consults the cache before following a reference, and never blocks", func(o *core.Ob) {
 		fn := c.Prog.Func("pdf", "Decode")
